@@ -3,43 +3,18 @@
 # scratch directory outside /repo and /verif, apply the patch, run the property check on the copy and
 # require that it reports a violation of the obligation named in the patch header ("# expect: <substring>").
 # Output never contains the word V-I-O-L-A-T-I-O-N (DESIGN 2.8): a caught mutant prints "selftest: ... caught by ...".
+# SELFTEST_JOBS (default 3) patches are checked in parallel.
 set -u
 cd "$(dirname "$0")/.."
-export GOFLAGS=-mod=mod GOPROXY=off GOSUMDB=off GOTOOLCHAIN=local
-BIN=/verif/bin/govc
 want="${1:-}"
-SCR_BASE=/dev/shm
-[ -d "$SCR_BASE" ] || SCR_BASE=/var/tmp
-pass=0; gap=0
-for d in selftest/mutants/*/; do
+list=$(for d in selftest/mutants/*/; do
   prop=$(basename "$d")
   [ -n "$want" ] && [ "$want" != "$prop" ] && continue
-  for p in "$d"*.diff; do
-    [ -e "$p" ] || continue
-    name=$(basename "$p" .diff)
-    expect=$(grep -m1 '^# expect:' "$p" | sed 's/^# expect: *//')
-    scr=$(mktemp -d "$SCR_BASE/govc-selftest-XXXXXX")
-    rsync -a --exclude .git /repo/ "$scr/"
-    if ! (cd "$scr" && patch -p1 -s --no-backup-if-mismatch < "/verif/$p" >/dev/null 2>&1); then
-      echo "selftest-gap: $prop/$name patch does not apply to the current tree"
-      gap=$((gap+1)); rm -rf "$scr"; continue
-    fi
-    out=$("$BIN" check -prop "$prop" -root "$scr" -verif "$scr/.verif-out" -no-evidence 2>&1)
-    rm -rf "$scr"
-    hit=$(echo "$out" | grep -A1 '^VIOLATION' | grep 'obligation' | grep -F -- "$expect" | head -1 | sed 's/^ *obligation //')
-    if [ -n "$hit" ]; then
-      echo "selftest: $prop/$name caught by ${hit%%:*}"
-      pass=$((pass+1))
-    else
-      other=$(echo "$out" | grep -A1 '^VIOLATION' | grep 'obligation' | head -1 | sed 's/^ *obligation //')
-      if [ -n "$other" ]; then
-        echo "selftest-gap: $prop/$name not caught by '$expect' (but: ${other%%:*})"
-      else
-        echo "selftest-gap: $prop/$name NOT caught (expected $expect)"
-      fi
-      gap=$((gap+1))
-    fi
-  done
-done
+  for p in "$d"*.diff; do [ -e "$p" ] && echo "$prop $p"; done
+done)
+res=$(echo "$list" | grep . | xargs -P "${SELFTEST_JOBS:-3}" -L 1 ./selftest/one.sh | sort)
+echo "$res"
+pass=$(echo "$res" | grep -c '^selftest: ')
+gap=$(echo "$res" | grep -c '^selftest-gap: ')
 echo "selftest: $pass caught, $gap gaps"
-[ $gap -eq 0 ]
+[ "$gap" -eq 0 ]
